@@ -161,7 +161,13 @@ class TabularMarkovDecisionProcess(MarkovDecisionProcess):
                 for ns, nsp in self._cached_next_state_dist(s, a).items():
                     if nsp == 0.:
                         continue
-                    nsi = self.state_list.index(ns)
+                    try:
+                        nsi = self.state_list.index(ns)
+                    except KeyError:
+                        # successors of absorbing states are never expanded into the state list
+                        if self.is_absorbing(s):
+                            continue
+                        raise
                     tf[si, ai, nsi] = nsp
         tf.setflags(write=False)
         return tf
@@ -200,7 +206,12 @@ class TabularMarkovDecisionProcess(MarkovDecisionProcess):
                 for ns, p in self._cached_next_state_dist(s, a).items():
                     if p == 0.:
                         continue
-                    nsi = self.state_list.index(ns)
+                    try:
+                        nsi = self.state_list.index(ns)
+                    except KeyError:
+                        if self.is_absorbing(s):
+                            continue
+                        raise
                     rf[si, ai, nsi] = self.reward(s, a, ns)
         rf.setflags(write=False)
         return rf
